@@ -132,6 +132,9 @@ REGISTRY: Dict[str, List[Tuple[Frag, str]]] = {
         for nm in ("trace_positive_cond", "cond_1", "cond_2", "cond_3")
     ],
     "C02": [
+        # the size the offset is computed from is the ROUNDED size `size_tensor()` (not the float-valued stored `_size`)
+        (Frag("origin_size", _GRID, "Grid.origin", "assign", {"n": "real"}, target="size", occ=(0, 0), rename={"self.size_tensor()": "n"}), "real"),
+        (Frag("origin_set_size", _GRID, "Grid.origin_", "assign", {"n": "real"}, target="size", occ=(0, 0), rename={"self.size_tensor()": "n"}), "real"),
         (Frag("origin_half_size", _GRID, "Grid.origin", "assign", {"size": "real"}, target="offset", occ=(0, 0)), "real"),
         (Frag("origin_set_half_size", _GRID, "Grid.origin_", "assign", {"size": "real"}, target="offset", occ=(0, 0)), "real"),
         (Frag("origin_value", _GRID, "Grid.origin", "assign", {"center": "real", "offset": "real"}, target="return", occ=(0, 0),
